@@ -128,7 +128,10 @@ func (nm LNumber) Format(f fmt.State, c rune) {
 	case 'o', 'x', 'X':
 		// C converts the argument of an unsigned conversion to unsigned (two's complement)
 		defaultFormat(uint64(int64(nm)), f, c)
-	case 'b', 'c', 'd', 'U':
+	case 'c':
+		// C writes the one byte (unsigned char); fmt's %c would write the UTF-8 encoding of a code point
+		defaultFormat(string([]byte{byte(int64(nm))}), f, 's')
+	case 'b', 'd', 'U':
 		defaultFormat(int64(nm), f, c)
 	case 'e', 'E', 'f', 'F', 'g', 'G':
 		defaultFormat(float64(nm), f, c)
